@@ -37,9 +37,16 @@ type Obj struct {
 type PtrV struct {
 	O    *Obj
 	Path []int
+	Nil  *Term // when non-nil: the pointer is nil iff this condition holds (symbolic nil-ness)
 }
 
-func (p PtrV) IsNil() bool { return p.O == nil }
+// IsNil is only meaningful for resolved pointers (Nil == nil); see (*Path).rp.
+func (p PtrV) IsNil() bool {
+	if p.Nil != nil && p.O != nil {
+		panic("engine: IsNil on an unresolved maybe-nil pointer")
+	}
+	return p.O == nil
+}
 
 type SliceV struct {
 	O             *Obj // holds *ArrayV
@@ -296,7 +303,7 @@ func (p PtrV) Sub(i int) PtrV {
 	np := make([]int, len(p.Path)+1)
 	copy(np, p.Path)
 	np[len(p.Path)] = i
-	return PtrV{p.O, np}
+	return PtrV{O: p.O, Path: np}
 }
 
 func ptrEq(a, b PtrV) bool {
@@ -372,7 +379,7 @@ func (c *cloner) val(v Value) Value {
 		if a.O == nil {
 			return a
 		}
-		return PtrV{c.obj(a.O), a.Path}
+		return PtrV{O: c.obj(a.O), Path: a.Path, Nil: a.Nil}
 	case SliceV:
 		if a.O == nil {
 			return a
